@@ -502,6 +502,12 @@ impl G {
         if in_b && self.r.chance(1, 2) {
             return ViewD::Aw(self.r.below(nres));
         }
+        if self.r.chance(1, 4) {
+            // a `Suspend` over a plain future picked by a signal
+            let sigs = sig_ids(&self.defs);
+            let e = Expr::Rd(*self.r.pick(&sigs));
+            return ViewD::Lw(if in_row && self.r.chance(1, 2) { Expr::Add(Box::new(e), Box::new(Expr::Key)) } else { e });
+        }
         match self.r.below(3) {
             0 => ViewD::Text(self.word()),
             _ => {
@@ -592,7 +598,7 @@ impl G {
 fn has_susp(v: &ViewD) -> bool {
     match v {
         ViewD::Susp(..) | ViewD::Sus(..) | ViewD::Tra(..) => true,
-        ViewD::Text(_) | ViewD::Unit | ViewD::DynText(_) | ViewD::For(..) | ViewD::Res(..) | ViewD::Aw(_) => false,
+        ViewD::Text(_) | ViewD::Unit | ViewD::DynText(_) | ViewD::For(..) | ViewD::Res(..) | ViewD::Aw(_) | ViewD::Lw(_) => false,
         ViewD::Elem(_, _, k) | ViewD::Errb(_, k) | ViewD::ForR(_, _, k) | ViewD::ForE(_, _, k) | ViewD::Scope(_, _, k) | ViewD::Eb(k) => has_susp(k),
         ViewD::Seq(a, b) | ViewD::Either(_, a, b) | ViewD::Show(_, a, b) => has_susp(a) || has_susp(b),
     }
@@ -658,17 +664,41 @@ fn random_scase(g: &mut G, name: &str, out: &mut String) {
     let sigs = sig_ids(&g.defs);
     let n = g.r.range(4, 16);
     let dispose_at = if g.r.chance(1, 8) { Some(g.r.below(n)) } else { None };
+    // poll-granular histories (not with a `<Transition>`: which pending episode its effect gets to see depends on
+    // the polling order): writes / completions / gate openings without running the executor, single polls of the
+    // view's ready tasks in any order, then `idle`
+    let granular = !has_tra(&view) && g.r.chance(1, 2);
+    let has_lw = show_view(&view).contains("lw ");
     for w in 0..n {
         if dispose_at == Some(w) {
             writeln!(out, "dispose").unwrap();
         }
-        if g.r.chance(1, 2) {
-            writeln!(out, "resolve {}", g.r.below(nres)).unwrap();
-        } else {
-            writeln!(out, "set {} {}", *g.r.pick(&sigs), g.r.below(5) as i64 - 1).unwrap();
+        if granular && g.r.chance(2, 3) {
+            for _ in 0..g.r.range(1, 4) {
+                match g.r.below(if has_lw { 7 } else { 5 }) {
+                    0 | 1 => writeln!(out, "pset {} {}", *g.r.pick(&sigs), g.r.below(5) as i64 - 1).unwrap(),
+                    2 => writeln!(out, "presolve {}", g.r.below(nres)).unwrap(),
+                    3 | 4 => writeln!(out, "poll {}", g.r.below(6)).unwrap(),
+                    _ => writeln!(out, "popen {}", g.r.below(4)).unwrap(),
+                }
+            }
+            if g.r.chance(1, 2) {
+                writeln!(out, "idle").unwrap();
+            }
+            continue;
+        }
+        match g.r.below(if has_lw { 5 } else { 4 }) {
+            0 | 1 => writeln!(out, "resolve {}", g.r.below(nres)).unwrap(),
+            4 => writeln!(out, "open {}", g.r.below(4)).unwrap(),
+            _ => writeln!(out, "set {} {}", *g.r.pick(&sigs), g.r.below(5) as i64 - 1).unwrap(),
         }
     }
     // let everything load
+    if has_lw {
+        for gid in 0..4 {
+            writeln!(out, "open {gid}").unwrap();
+        }
+    }
     for _ in 0..2 {
         for rid in 0..nres {
             writeln!(out, "resolve {rid}").unwrap();
@@ -1013,6 +1043,10 @@ fn view_tags(defs: &[Def], v: &ViewD, under_dyn: bool, tags: &mut BTreeSet<&'sta
         }
         ViewD::Aw(_) => {
             tags.insert("await");
+        }
+        ViewD::Lw(e) => {
+            tags.insert("await-plain");
+            on_expr(e, tags)
         }
         ViewD::Susp(e, a) => {
             tags.insert("suspense");
